@@ -172,6 +172,8 @@ def main(tier: str, seed: int) -> int:
         inst = {"A": ({"dir": cfg} if isinstance(cfg, str) else {"cfg": cfg})}
         for rep in range(1 if tier == "quick" else 3):
             s0, s1 = rng.randrange(10**6), rng.randrange(10**6)
+            if rep == 0 and label in ("data_manipulation", "scenario_with_placeholders"):
+                s1 = 0  # a boundary value of the seed: reset(seed=0) re-seeds like any other seed
             dirty = [rng.choice(dirt_idx) if rng.random() < 0.8 else rng.randrange(len(names)) for _ in range(dirty_len)]
             sigma = [rng.randrange(len(names)) for _ in range(sigma_len)]
             ops_d = [["new", "A"], ["reset", "A", s0]] + [["step", "A", a] for a in dirty] + [["reset", "A", s1]] + [["step", "A", a] for a in sigma]
